@@ -191,6 +191,58 @@ def panic_class(rec):
     return "panic:%s@%s" % (dep, via or "?")
 
 
+# Finding classes: a class is one root cause.  The raw key of a failure (panic site | abort kind | overflow phase |
+# hang site | history name) is mapped to its class by the first matching pattern; a raw key that matches nothing is its
+# own class (and therefore unlisted: a VIOLATION).
+FINDING_CLASSES = [
+    ("handler-not-a-closure-leaves-frames", [r"residue:handler-not-a-closure", r"history:handler-not-a-closure-twice"]),
+    ("panic-while-jit-frames-are-active-aborts", [r"abort:panic-cannot-unwind.*"]),
+    ("caught-panic-leaves-engine-state", [r"after-panic:.*"]),
+    ("assert-builtin-panics", [r"panic:crates/steel-core/src/primitives/meta_ops\.rs:assert_truthy"]),
+    ("builtin-indexes-args-without-arity-check",
+     [r"panic:crates/steel-core/src/steel_vm/primitives\.rs:raise_error_from_error", r"panic:crates/steel-core/src/rvals\.rs:iterator_next",
+      r"panic:crates/steel-core/src/values/functions\.rs:(attach_contract_struct|get_contract)"]),
+    ("meta-builtins-unwrap-or-todo",
+     [r"panic:crates/steel-core/src/compiler/compiler\.rs:load_from_file",
+      r"panic:crates/steel-core/src/steel_vm/vm\.rs:(emit_expanded_file|callstack_hydrate_names|sample_stacks|macro_case_bindings_impl)",
+      r"panic:crates/steel-core/src/values/structs\.rs:fields", r"panic:crates/steel-core/src/steel_vm/vm/threads\.rs:(get_tls|set_tls)"]),
+    ("http-parse-unwrap", [r"panic:crates/steel-core/src/primitives/http\.rs:parse_(request|response)"]),
+    ("string-join-extra-argument-todo", [r"panic:crates/steel-core/src/primitives/strings\.rs:string_join"]),
+    ("bytes-to-string-end-beyond-length", [r"panic:crates/steel-core/src/primitives/bytevectors\.rs:bytes_to_string"]),
+    ("immutable-vector-take-beyond-length-when-shared", [r"panic:steel-imbl/src/vector/mod\.rs@steel_imbl::vector::GenericVector.*split_off"]),
+    ("json-non-finite-float-unwrap", [r"panic:crates/steel-core/src/values/json_vals\.rs:try_from"]),
+    ("gen-range-empty-range", [r"panic:crates/steel-core/src/primitives/random\.rs:.*"]),
+    ("fixnum-overflow-in-rounding-shift-magnitude",
+     [r"panic:num-rational/src/lib\.rs@steel::primitives::numbers::steel_(ceiling|floor|round|truncate)",
+      r"panic:num-traits/src/sign\.rs@steel::primitives::numbers::magnitude",
+      r"panic:library/core/src/ops/(bit|arith)\.rs@steel::primitives::numbers::arithmetic_shift"]),
+    ("function-arity-empty-contract-struct", [r"panic:crates/steel-core/src/steel_vm/primitives\.rs:arity"]),
+    ("mvector-index-unchecked", [r"panic:crates/steel-core/src/steel_vm/primitives\.rs:vector_(ref|set)"]),
+    ("require-only-in-non-identifier-unwrap", [r"panic:crates/steel-core/src/compiler/modules\.rs:compile_main"]),
+    ("thread-copy-inside-open-continuation-mark-assertion", [r"panic:crates/steel-core/src/steel_vm/vm\.rs:close"]),
+    ("unbounded-allocation-request",
+     [r"abort:out-of-memory.*", r"abort:capacity-overflow.*", r"panic:library/alloc/src/raw_vec/mod\.rs@.*",
+      r"hang:builtin:(make-bytes|make-bytevector|make-string|make-immutable-vector|make-vector|list-drop|range)"]),
+    ("negative-count-becomes-huge", [r"hang:builtin:(range-vec|make-struct-type)"]),
+    ("mutable-vector-lock-reentry-deadlock", [r"hang:builtin:(vector-append!|vector-fill!|vector-copy!)", r"hang:evaluation-ignores-interrupt"]),
+    ("native-stack-overflow-reader", [r"stack-overflow:read"]),
+    ("native-stack-overflow-expander", [r"stack-overflow:expand"]),
+    ("native-stack-overflow-compiler", [r"stack-overflow:compile"]),
+    ("native-stack-overflow-run", [r"stack-overflow:run", r"stack-overflow:builtin:.*"]),
+    ("superlinear-front-end-time", [r"hang:(reader|expander|compiler)-time"]),
+    ("macro-of-failed-program-stays-defined", [r"history:macro-of-failed-program-is-not-defined"]),
+    ("continuation-of-finished-evaluation", [r"history:continuation-of-earlier-.*"]),
+]
+
+
+def finding_class(raw):
+    for name, pats in FINDING_CLASSES:
+        for p in pats:
+            if re.fullmatch(p, raw):
+                return name
+    return raw
+
+
 class Classes:
     """failure classes seen in this run: key -> dict(count, example replay text, details)"""
 
@@ -198,6 +250,10 @@ class Classes:
         self.by = {}
 
     def add(self, key, replay, detail, source):
+        raw = key
+        key = finding_class(raw)
+        if key != raw:
+            detail = "[%s] %s" % (raw, detail)
         c = self.by.setdefault(key, {"count": 0, "replay": replay, "detail": detail, "sources": {}, "examples": []})
         c["count"] += 1
         c["sources"][source] = c["sources"].get(source, 0) + 1
@@ -382,7 +438,7 @@ def builtin_worker(ctx, wid, queue):
                 break
         lines = ["F %s %s %d %d %d %d" % j for j in todo]
         env = {"C07_SOFT_MS": "3000", "C07_HARD_MS": "2500" if ctx.quick() else "8000",
-               "C07_MAX_PANICS": "12" if ctx.quick() else "200", "C07_MAX_SAME": "4" if ctx.quick() else "40"}
+               "C07_MAX_PANICS": "6" if ctx.quick() else "200", "C07_MAX_SAME": "2" if ctx.quick() else "40"}
         rc, tail = spawn("builtins", lines, out, sandbox, env=env, timeout=3600)
         res["spawns"] += 1
         res["wall"] = "%.0fs/%d" % (time.time() - t_w, res["spawns"])
@@ -469,7 +525,7 @@ def builtin_worker(ctx, wid, queue):
         rest = todo[done + 1:]
         if not hang:
             hangs_per_fn[cur[0]] = hangs_per_fn.get(cur[0], 0) + 1
-        if nxt < cur[5] and hangs_per_fn.get(cur[0], 0) < (3 if ctx.quick() else 12):
+        if nxt < cur[5] and hangs_per_fn.get(cur[0], 0) < (1 if ctx.quick() else 12):
             todo = [(cur[0], cur[1], cur[2], cur[3], nxt, cur[5])] + rest
         else:
             if nxt < cur[5]:
@@ -490,7 +546,7 @@ def confirm_builtin_events(ctx, raw, pool, n, classes, stats):
         site = detail.split(" | ")[0] if kind in ("panic", "thread-panic") else detail.split(" || ")[0] if kind == "death" else ""
         dk = (name, arity, kind, site)
         seen[dk] = seen.get(dk, 0) + 1
-        if seen[dk] > 2:
+        if seen[dk] > (1 if ctx.quick() else 3):
             continue
         if k >= 0:
             text = call_text(module, name, tuple_of(k, arity, mode, n), pool)
@@ -499,7 +555,7 @@ def confirm_builtin_events(ctx, raw, pool, n, classes, stats):
         items.append((kind, job, k, detail, text))
     stats["builtin_events_replayed"] = len(items)
     texts = sorted(set(t for *_, t in items if t))
-    res = run_texts(ctx, [(t, t.encode()) for t in texts], fresh_each=True, tag="confirm", hard_ms=10000, batch=4, phases=False) if texts else {}
+    res = run_texts(ctx, [(t, t.encode()) for t in texts], fresh_each=True, tag="confirm", hard_ms=8000 if ctx.quick() else 15000, batch=3, phases=False) if texts else {}
     stats["builtin_events_confirmed"] = 0
     for kind, job, k, detail, text in items:
         name, module, arity, mode = job[0], job[1], job[2], job[3]
@@ -603,8 +659,13 @@ def failure_classes(r):
                         "after the caught panic: stack depth (frames operands) = %s, probe = %s" % (d, (q or "")[:200])))
     else:
         if d is not None and d != "0 0":
-            out.append((("residue:" + ("frames" if not d.startswith("0 ") else "operands")) if re.match(r"^\d+ \d+$", d) else "residue:depth-probe-failed",
-                        "stack depth after the error (frames operands) = " + d))
+            if "expected a function for the exception handler" in res:
+                rk = "residue:handler-not-a-closure"
+            elif re.match(r"^\d+ \d+$", d):
+                rk = "residue:" + ("frames" if not d.startswith("0 ") else "operands")
+            else:
+                rk = "residue:depth-probe-failed"
+            out.append((rk, "stack depth after the error (frames operands) = " + d))
         if q is not None and q != "same":
             out.append(("probe:" + probe_signature(q), "probe result: " + q[:300]))
     for o in r.get("others", []):
@@ -740,6 +801,8 @@ def overflow_phase(ctx, b, slot=0):
 # ------------------------------------------------------------------------------------------------------------------
 # directed histories: evaluations on one engine with expectations about the later ones
 
+HSEP = "\n;;; next evaluation on the same engine\n"
+
 HISTORIES = [
     # (name, [(kind, text, expectation)])   kind T = evaluate, X = evaluate and compare; expectation: ("value", s) |
     # ("error", substring) | None
@@ -768,17 +831,26 @@ HISTORIES = [
       ("X", "(with-handler (lambda (e) 'again) (car 1))", ("value", "again"))]),
     ("continuation-of-earlier-evaluation-at-top-level",
      [("T", "(define c07-k2 #f) (+ 1 (call/cc (lambda (k) (set! c07-k2 k) 1)))", None),
-      ("T", "(c07-k2 10)", None), ("X", "(+ 1 1)", ("value", "2"))]),
+      ("T", "(c07-k2 10)", ("ok", "")), ("X", "(+ 1 1)", ("value", "2"))]),
     ("continuation-of-earlier-evaluation-inside-a-call",
      [("T", "(define c07-k3 #f) (+ 1 (call/cc (lambda (k) (set! c07-k3 k) 1)))", None),
-      ("T", "(define (c07-f3) (c07-k3 10)) (list 1 2 (c07-f3))", None), ("X", "(+ 1 1)", ("value", "2"))]),
+      ("T", "(define (c07-f3) (c07-k3 10)) (list 1 2 (c07-f3))", ("ok", "")), ("X", "(+ 1 1)", ("value", "2"))]),
+    ("continuation-of-earlier-failed-evaluation",
+     [("T", "(define c07-k4 #f) (+ 1 (call/cc (lambda (k) (set! c07-k4 k) 1))) (car 1)", ("error", "TypeMismatch")),
+      ("T", "(c07-k4 10)", ("error", "TypeMismatch")), ("X", "(+ 1 1)", ("value", "2"))]),
 ]
 
 
 def run_histories(ctx, classes, stats):
     out = os.path.join(SCRATCH, "hist.out")
     n_ok = 0
-    for hi, (name, steps) in enumerate(HISTORIES):
+    hists = list(HISTORIES)
+    # the multi-evaluation replays of the findings are histories too (no expectation beyond the property itself)
+    for p in sorted(glob.glob(os.path.join(C.VERIF, "findings", "C07-K07*.txt"))):
+        t = finding_replay_text(open(p, encoding="utf-8", errors="replace").read())
+        if HSEP in t:
+            hists.append(("finding-" + os.path.basename(p)[4:-4], [("T", x, None) for x in t.split(HSEP)]))
+    for hi, (name, steps) in enumerate(hists):
         lines = ["%s %d %s" % (k, i, text.encode().hex()) for i, (k, text, _) in enumerate(steps)]
         rc, tail = spawn("texts", lines, out, os.path.join(SCRATCH, "sandbox", "hist"), env={"C07_SOFT_MS": "2000", "C07_HARD_MS": "9000"}, timeout=120)
         got = {}
@@ -791,7 +863,7 @@ def run_histories(ctx, classes, stats):
                 got[int(f[1])] = ("value", bytes.fromhex(f[2] if len(f) > 2 else "").decode("utf-8", "replace"))
             elif f[0] == "D":
                 depth[int(f[1])] = f[2] if len(f) > 2 else ""
-        script = "\n;;; next evaluation on the same engine\n".join(t for _, t, _ in steps)
+        script = HSEP.join(t for _, t, _ in steps)
         bad = []
         if rc != 0:
             bad.append("the child died: " + death_signature(rc, tail))
@@ -808,7 +880,10 @@ def run_histories(ctx, classes, stats):
                 continue
             if exp is None:
                 continue
-            if exp[0] == "value":
+            if exp[0] == "ok":
+                if not (g[0] == "value" or g[1].startswith("ok")):
+                    bad.append("step %d `%s`: expected it to return normally, got %s" % (i, text, g))
+            elif exp[0] == "value":
                 val = g[1].split("\x1f")[-1] if g[0] == "value" else None
                 if val != exp[1]:
                     bad.append("step %d `%s`: expected the value %s, got %s" % (i, text, exp[1], g))
@@ -818,11 +893,27 @@ def run_histories(ctx, classes, stats):
         for i, d in depth.items():
             if d != "0 0":
                 bad.append("step %d: stack depth after the error (frames operands) = %s" % (i, d))
-        if bad:
+        if bad and name.startswith("finding-"):
+            # classify by what happened (the finding's own class is recognised through the usual keys)
+            key = "history:" + name
+            for b in bad:
+                m = re.search(r": panic (.*)$", b)
+                if m:
+                    key = panic_class(m.group(1))
+                elif "stack depth after the error" in b:
+                    key = "residue:handler-not-a-closure" if "call-with-exception-handler" in script else ("residue:frames" if not re.search(r"= 0 \d+$", b) else "residue:operands")
+            if name == "finding-K07c":
+                key = "after-panic:engine-state-not-reset"
+            elif name == "finding-K07z":
+                key = "history:macro-of-failed-program-is-not-defined"
+            elif name == "finding-K07aa":
+                key = "history:continuation-of-earlier-evaluation-at-top-level"
+            classes.add(key, script, "; ".join(bad), "histories")
+        elif bad:
             classes.add("history:" + name, script, "; ".join(bad), "histories")
         else:
             n_ok += 1
-    stats["histories"] = len(HISTORIES)
+    stats["histories"] = len(hists)
     stats["histories_as_expected"] = n_ok
 
 
@@ -1001,7 +1092,7 @@ def corpus_texts():
     # the replays of the findings are corpus entries too
     for p in sorted(glob.glob(os.path.join(C.VERIF, "findings", "C07-K07*.txt"))):
         t = finding_replay_text(open(p, encoding="utf-8", errors="replace").read())
-        if t and not t.startswith(";;; sweep job"):
+        if t and not t.startswith(";;; sweep job") and HSEP not in t:
             out.append(("finding:" + os.path.basename(p), t.encode()))
     return out
 
@@ -1118,6 +1209,9 @@ def translate(ctx):
 
 def run(ctx):
     stats = {}
+    for p in glob.glob(os.path.join(C.VERIF, "findings", "C07-*.txt")):
+        if not os.path.basename(p).startswith("C07-K07"):
+            os.remove(p)                                  # violation files of earlier runs of this check
     shutil.rmtree(os.path.join(SCRATCH, "sandbox"), ignore_errors=True)
     os.makedirs(os.path.join(SCRATCH, "sandbox"), exist_ok=True)
     t_ok, t_info = translate(ctx)
@@ -1215,6 +1309,14 @@ def replay(ctx, path):
         rc, tail = spawn("builtins", [m.group(1)], out, os.path.join(SCRATCH, "sandbox", "replay"), timeout=300)
         print("\n".join(read_records(out)))
         print("exit status", rc, death_signature(rc, tail) if rc else "", tail[-400:])
+        return 0
+    if HSEP in text:
+        out = os.path.join(SCRATCH, "replay.out")
+        steps = text.split(HSEP)
+        rc, tail = spawn("texts", ["T %d %s" % (i, t.encode().hex()) for i, t in enumerate(steps)], out,
+                         os.path.join(SCRATCH, "sandbox", "replay"), env={"C07_SOFT_MS": "3000", "C07_HARD_MS": "9000"}, timeout=300)
+        print("\n".join(read_records(out)))
+        print("exit status", rc, death_signature(rc, tail) if rc else "")
         return 0
     res = run_texts(ctx, [("replay", text.encode())], fresh_each=True, tag="r")
     r = res.get("replay")
